@@ -381,6 +381,9 @@ func runCase(run *vf.Run, be backend, cs *caseSpec, fullRep map[string]int) {
 	if !c.concurrent() {
 		return
 	}
+	if !c.channelWriters() {
+		return
+	}
 	run.Count("cases/"+cs.Backend, 1)
 	run.Count("cases_rootfam/"+cs.Backend+"/"+cs.RootFam, 1)
 	run.Count("cases_idfam/"+cs.Backend+"/"+cs.IDFam, 1)
